@@ -422,7 +422,7 @@ def check(prop, cfg, tier, seed, ncases_override=None):
         counts = {}
         for x in res.violations: counts[x["key"]] = counts.get(x["key"], 0) + 1
         exhaustive = (tier == "thorough")
-        extra = dict(exhaustive=dict(sequential_op_kill_points=exhaustive, note="thorough: every intercepted operation of every sequential scenario x {before, after} and every write x torn at {1, mid, len-1, seeded}; every prefix length of the sampled snapshot pairs up to 4 KB. quick: all operations of the first three and the last two checkpoints plus a seeded sample; prefixes thinned to ~2600 keeping every section boundary. parallel mode and chains are sampled in both tiers."),
+        extra = dict(exhaustive=bool(exhaustive), exhaustive_scope=dict(sequential_op_kill_points=exhaustive, note="thorough: every intercepted operation of every sequential scenario x {before, after} and every write x torn at {1, mid, len-1, seeded}; every prefix length of the sampled snapshot pairs up to 4 KB. quick: all operations of the first three and the last two checkpoints plus a seeded sample; prefixes thinned to ~2600 keeping every section boundary. parallel mode and chains are sampled in both tiers."),
                      fault_space=cover, violation_counts=dict(sorted(counts.items())))
         return CK.finish(prop, tier, seed, cfg.get("level", "fault_enumeration"), res, RULE, t0, extra_cov=extra, assumptions=cfg.get("assumptions"),
                          min_nontrivial=cfg.get("min_nontrivial", 20))
